@@ -67,7 +67,7 @@ var props = map[string]*propCfg{
 		DesignRef:   "DESIGN.md §4 C04",
 	},
 	"C02": {
-		Rule: "55% arithmetic cases (C01's generator for Add/Sub/Mul/Quo/Set/SetPrec plus C03's FMA generator, 35% of them re-targeted at a precision that makes the exact result representable so that Exact must be reported iff nothing was lost) and 45% setter cases: SetUint64/SetInt64 (edge values around 2^63, 2^64, 10^19, rounding-aimed digit strings), SetInt (1..6 000 digits, powers of 2 and 10, zero), SetRat (random, terminating and rounding-aimed exact quotients), NewDecimal (exponents over all of int incl. the int64 extremes), SetMantExp (results within +-3 of both range ends, int64-extreme offsets, zeros, infinities), base-10 literals via Parse(s,10), Parse(s,0) with '_' separators, SetString and UnmarshalText (leading/trailing zeros, point anywhere, exponents to both range ends); receiver precision 0 or 1..45 or digit count +-3, six modes. Oracle: only the line Acc == sign(stored - exact), evaluated by exact magnitude comparison against the stored value (infinities as +-oo, underflowed zeros against the tiny exact value); model #1 is used as a cross-check of that truth. Every case is non-trivial; distinct = hashes of the case description.",
+		Rule:        "55% arithmetic cases (C01's generator for Add/Sub/Mul/Quo/Set/SetPrec plus C03's FMA generator, 35% of them re-targeted at a precision that makes the exact result representable so that Exact must be reported iff nothing was lost) and 45% setter cases: SetUint64/SetInt64 (edge values around 2^63, 2^64, 10^19, rounding-aimed digit strings), SetInt (1..6 000 digits, powers of 2 and 10, zero), SetRat (random, terminating and rounding-aimed exact quotients), NewDecimal (exponents over all of int incl. the int64 extremes), SetMantExp (results within +-3 of both range ends, int64-extreme offsets, zeros, infinities), base-10 literals via Parse(s,10), Parse(s,0) with '_' separators, SetString and UnmarshalText (leading/trailing zeros, point anywhere, exponents to both range ends); receiver precision 0 or 1..45 or digit count +-3, six modes. Oracle: only the line Acc == sign(stored - exact), evaluated by exact magnitude comparison against the stored value (infinities as +-oo, underflowed zeros against the tiny exact value); model #1 is used as a cross-check of that truth. Every case is non-trivial; distinct = hashes of the case description.",
 		Assumptions: []string{"Neg/Abs are not in the statement's list and are not judged", "for SetInt/SetRat with precision 0 the resulting precision is taken as found (C09 judges it)", "FMA cases whose exact product leaves the exponent range are known finding D15"},
 		Floors:      []floor{{"expected-acc/0", 100000}, {"expected-acc/1", 50000}, {"expected-acc/-1", 50000}, {"SetMantExp", 5000}, {"NewDecimal", 5000}, {"SetRat", 5000}, {"Parse10", 3000}, {"UnmarshalText", 3000}, {"FMA/", 10000}, {"Quo/", 10000}},
 		LevelText:   "Runtime monitoring of the accuracy flag against the exact value on every rounding operation of the statement; needs only the stored value and the exact value, not the rounding algorithm.",
@@ -75,12 +75,43 @@ var props = map[string]*propCfg{
 		DesignRef:   "DESIGN.md §4 C02",
 	},
 	"C06": {
-		Rule: "Word-level cases through the verif exports: dec.mul (balanced, 1:2, 1:10, random lengths; dirty destination buffers), dec.sqr, dec.div on operands of 1..420 words (thorough: 1 100) whose words are drawn from {0, 1, 2, 10, 10^9, 10^18, base/2-1, base/2, base/2+1, base-2, base-1, random}; divisions: constructed add-back pairs (v=[..,0,base/2], u=[..,0,0,k]: the two-word test passes and q̂ is one too large), exact u=q*v, u=q*v+(v-1), dividends whose leading words equal the divisor's (q̂=base-1 path), 1- and 2-word divisors, divisors of 100..230 words with dividends spanning several recursion blocks; plus end-to-end Mul at precision = total digits (exact product) and Quo with the exact/inexact decision judged. Half of the cases run under a random threshold assignment (Karatsuba 2..40, basicSqr in {1,2,3,5,10,20}, karatsubaSqr in {2,3,4,6,11,50,100}) and half with the scratch pool poisoned (every buffer handed out or returned is overwritten with a word >= base). Oracle: big.Int product / QuoRem of the word vectors converted by harness code; operands unchanged; every output word < base. Hook counters prove that the add-back, q̂ correction, recursive corrections and Karatsuba branches were reached. Non-trivial = multi-word operands.",
+		Rule:        "Word-level cases through the verif exports: dec.mul (balanced, 1:2, 1:10, random lengths; dirty destination buffers), dec.sqr, dec.div on operands of 1..420 words (thorough: 1 100) whose words are drawn from {0, 1, 2, 10, 10^9, 10^18, base/2-1, base/2, base/2+1, base-2, base-1, random}; divisions: constructed add-back pairs (v=[..,0,base/2], u=[..,0,0,k]: the two-word test passes and q̂ is one too large), exact u=q*v, u=q*v+(v-1), dividends whose leading words equal the divisor's (q̂=base-1 path), 1- and 2-word divisors, divisors of 100..230 words with dividends spanning several recursion blocks; plus end-to-end Mul at precision = total digits (exact product) and Quo with the exact/inexact decision judged. Half of the cases run under a random threshold assignment (Karatsuba 2..40, basicSqr in {1,2,3,5,10,20}, karatsubaSqr in {2,3,4,6,11,50,100}) and half with the scratch pool poisoned (every buffer handed out or returned is overwritten with a word >= base). Oracle: big.Int product / QuoRem of the word vectors converted by harness code; operands unchanged; every output word < base. Hook counters prove that the add-back, q̂ correction, recursive corrections and Karatsuba branches were reached. Non-trivial = multi-word operands.",
 		Assumptions: []string{"thresholds and the pool callback are changed only between cases in a single-threaded worker", "the recursive-division threshold is a constant (100 words): both sides of it are exercised through the divisor length"},
 		Floors:      []floor{{"hit_div_add_back", 1000}, {"hit_div_qhat_fix", 1000}, {"hit_div_rec_fix1", 500}, {"hit_div_rec_fix2", 300}, {"hit_div_recursive", 500}, {"hit_karatsuba", 5000}, {"hit_karatsuba_negative", 1000}, {"hit_karatsuba_sqr", 1000}, {"hit_basic_sqr", 1000}, {"mul/", 5000}, {"sqr/", 3000}, {"div/", 8000}, {"Quo/e2e", 1000}, {"Mul/e2e", 1000}},
 		LevelText:   "Runtime monitoring of the multi-word routines against big.Int with adversarial word patterns, every threshold assignment family and a poisoned scratch pool; branch-hit counters from tag-guarded hooks show that the rare correction paths were actually executed.",
 		Technique:   "runtime differential monitoring vs big.Int through tag-guarded exports; branch-hit counters; pool poisoning",
 		DesignRef:   "DESIGN.md §4 C06",
+	},
+	"C07": {
+		Rule:        "Part A (kernel twins): for each of the 12 decimal kernels and divWVW, inputs inside the precondition (words < base; dividend high word < divisor; shift 0..18; equal lengths except the add/sub kernels, whose sources may be longer than the destination as in u[j:]), lengths 0..70 (every residue mod 4, the >=4 fast paths and memcpy exits), edge words (0, 1, base-1, base/2, powers of ten, all-nines and all-zero vectors), the overlap shapes the library uses (z==x in place, z==y, z==x==y, shl with z above x, shr with z below x). Operands are carved out of mmap'ed arenas whose neighbouring pages are PROT_NONE (flush against the upper or the lower guard page) or surrounded by canary words; the selected implementation (assembly in the default build), the portable _g twin and a big.Int definition must agree on the output vector and the returned word; sources must be unchanged; words of an in-place operand beyond len(z) untouched. Part B (transcripts): every shard runs a deterministic program of public operations (arithmetic, Sqrt, setters, parse/format, conversions, gob/text round trips over 8 variables) and records SHA-256 digests per 250 steps; the driver requires identical digests from the workers built with tags {verif}, {verif,decimal_pure_go}, {verif,math_big_pure_go}, {verif,decimal_pure_go,math_big_pure_go} (thorough: also go1.26.8). Non-trivial = vector length > 0.",
+		Assumptions: []string{"inputs outside a kernel's precondition are never generated (e.g. shl/shr/mulAdd/addMul/div kernels are only called with len(x) == len(z) by the library)", "a read past a slice is only detected for operands flush against a guard page (one third of the placements); writes are also detected by canaries", "receiver contents after an error or an ErrNaN panic are undefined and excluded from the transcript line"},
+		Floors:      []floor{{"kernel/add10VV", 15000}, {"kernel/shl10VU", 15000}, {"kernel/div10VWW", 15000}, {"kernel/divWVW", 15000}, {"kernel/mul10WW", 15000}, {"shape/1", 20000}, {"shape/4", 2000}, {"transcript_steps", 70000}, {"transcript_chunk_digests_compared", 300}},
+		Variants: []variant{
+			{Name: "verif", Tags: "verif"},
+			{Name: "puredec", Tags: "verif,decimal_pure_go"},
+			{Name: "purebig", Tags: "verif,math_big_pure_go"},
+			{Name: "pureboth", Tags: "verif,decimal_pure_go,math_big_pure_go"},
+		},
+		ThoroughVariants: []variant{{Name: "go1268", Tags: "verif", Go: "go1.26.8", Optional: true}},
+		LevelText:        "Runtime differential monitoring of every assembly kernel against its portable twin and the mathematical definition on guard-paged operands, plus whole-library transcript digests compared across four build configurations.",
+		Technique:        "runtime monitoring: differential kernel twins with guard pages and canaries (hand-made sanitizer for Go assembly); transcript digests across build configurations",
+		DesignRef:        "DESIGN.md §4 C07",
+	},
+	"C08": {
+		Rule:        "Random programs of 60 (thorough: 100) public operations over 8 variables with receivers reused and aliased: Add/Sub/Mul/Quo/FMA/Sqrt, Set/Neg/Abs/Copy, SetPrec (incl. 0)/SetMode, SetInt64/SetUint64/SetInt/SetRat/SetFloat64/SetFloat, Parse/SetString/UnmarshalText of generated literals and token soup in every base, SetMantExp (exponents to both int32 ends and int64 extremes)/MantExp, SetBitsExp (valid words, any int64 exponent), SetInf, Gob round trips directly and through encoding/gob, decoding of mutated Gob payloads (accepted => must be canonical), text round trips, NewDecimal, getters. After EVERY step the walker visits ALL variables: finite => non-empty mantissa, all words < 10^19, leading word >= 10^18, 1 <= MinPrec <= Prec, mode and accuracy in range; zero/infinity => no mantissa exposed, MinPrec 0, MantExp 0 and prints as a bare signed 0/Inf; the receiver is compared with every other variable: Cmp == 0 iff equal exponent and equal digits after stripping low zero words. Any non-ErrNaN panic, or an ErrNaN on a valid call, is also a violation. Every evaluated step is non-trivial; distinct counted per step (fresh PRNG state).",
+		Assumptions: []string{"steps that would materialise an exponent gap > 4 000 digits or allocate by a precision > 6 500 are skipped and counted", "the raw exponent BitsExp returns for a zero/infinity is a leftover field and is not examined"},
+		Floors:      []floor{{"walker_visits", 1000000}, {"walker_zero", 100000}, {"walker_inf", 20000}, {"equal_value_pairs", 5000}, {"op/GobDecode", 3000}, {"op/SetBitsExp", 3000}, {"op/SetMantExp", 3000}, {"op/Quo", 5000}, {"ErrNaN_panics", 1000}},
+		LevelText:   "Runtime invariant checking: a representation-invariant walker over all live variables after every step of random API programs (structural invariant at quiescent points).",
+		Technique:   "runtime invariant monitor (structure walker after every step of generated operation sequences)",
+		DesignRef:   "DESIGN.md §4 C08",
+	},
+	"C09": {
+		Rule:        "Same program engine as C08 (without corrupted Gob payloads). A wrapper at the client boundary snapshots all 8 variables (raw words, exponent, sign, class, precision, mode, accuracy) and the math/big arguments before each call; afterwards every variable the operation is not documented to write must be bit-identical, big.Int/Rat/Float arguments unchanged; the receiver's mode must be unchanged except for the documented copiers (Copy, SetMantExp, MantExp's out-parameter, SetMode, GobDecode into a precision-0 receiver); the receiver's precision must be unchanged if it was non-zero, otherwise equal to the documented value (largest operand precision for Add/Sub/Mul/Quo/FMA, x's for Sqrt/Set/Neg/Abs, 34 for SetInt64/SetUint64/strings, 17 for SetFloat64, ceil(prec*log10 2) for SetFloat, the interval [max(34,MinPrec), max(34,digits/BitLen)] for SetInt/SetRat) or left at 0 for a zero/infinite result. Non-trivial = steps with a receiver.",
+		Assumptions: []string{"receiver attributes are not judged after an error return or an ErrNaN panic (contents documented as undefined); operands still are", "GobDecode of an empty buffer (documented as 'the other side sent a default value': the receiver is reset) is not generated", "for SetInt/SetRat with precision 0 the doc comment and the code name different formulas; both lie in the accepted interval"},
+		Floors:      []floor{{"operand_snapshots_compared", 1000000}, {"op/Add/prec=0", 300}, {"op/Sqrt/prec=0", 100}, {"op/SetInt/prec=0", 100}, {"op/SetFloat64/prec=0", 100}, {"op/GobDecode/prec=0", 100}, {"op/SetMantExp", 3000}, {"op/MantExp", 1500}},
+		LevelText:   "Runtime monitoring at the client boundary: snapshot/compare of all variables around every call of random programs, attribute rules per operation.",
+		Technique:   "runtime monitor: before/after snapshots at the API boundary over generated operation sequences",
+		DesignRef:   "DESIGN.md §4 C09",
 	},
 }
 
